@@ -18,7 +18,7 @@ var Leaves = []reflect.Type{
 	T[int8](), T[int16](), T[int32](), T[int64](), T[uint](), T[uint8](), T[uint16](), T[uint32](), T[uint64](), T[uintptr](), T[float32](),
 	T[NamedBytes](), T[NamedString](), T[NamedInt](), T[json.Number](), T[json.RawMessage](), T[time.Time](),
 	T[VMStruct](), T[PMStruct](), T[VTStruct](), T[PTStruct](), T[VMString](), T[PTString](), T[VTInt](), T[PMInt](), T[VMSlice](), T[VTSlice](), T[VMMap](), T[ErrM](), T[ErrT](), T[Both](),
-	T[Iface](), T[Base](), T[struct{}](), T[VTPMStruct](), T[VTString](), T[RecPM](), T[NamedAny](),
+	T[Iface](), T[Base](), T[struct{}](), T[VTPMStruct](), T[VTString](), T[RecPM](), T[NamedAny](), T[RecArr](), T[VUByte](), T[VMInt](), T[LazyFn](), T[ChanBox](),
 }
 
 // Statics are the hand-written struct types (embedding, tags, recursion).
@@ -27,7 +27,7 @@ var Statics = []reflect.Type{
 	T[EmbedMarshaler](), T[EmbedTextMarshalerPtr](), T[EmbedNonStruct](), T[EmbedPtrNonStruct](), T[EmbedIface](), T[EmbedTwoPtr](), T[EmbedTagDepths](), T[DupTagDirect](), T[DupTagEmbedded](), T[NonASCIIKeys](), T[AddrMapThenSlice](), T[AddrSliceThenMap](), T[EmbedUnexpNonStructTagged](), T[MutRoot](), T[MutA](), T[EmbedPtrOmit](), T[Tags](), T[CaseFields](), T[Recursive](), T[Deep](),
 }
 
-var mapKeys = []reflect.Type{T[string](), T[NamedString](), T[int](), T[int8](), T[uint64](), T[KeyT](), T[KeyPT](), T[bool](), T[float64](), T[VTInt](), T[VTString](), T[KeyMTOnly]()}
+var mapKeys = []reflect.Type{T[string](), T[NamedString](), T[int](), T[int8](), T[uint64](), T[KeyT](), T[KeyPT](), T[bool](), T[float64](), T[VTInt](), T[VTString](), T[KeyMTOnly](), T[time.Duration](), T[VMInt](), T[PMInt](), reflect.PointerTo(T[KeyPT]()), reflect.PointerTo(T[KeyT]())}
 
 var fieldTags = []string{"", `json:"x"`, `json:"-"`, `json:"-,"`, `json:",omitempty"`, `json:",string"`, `json:"y,omitempty,string"`, `json:"bad name"`, `json:"<a>&b"`, `json:"x,omitempty"`}
 
@@ -129,6 +129,16 @@ func Domain(t reflect.Type, depth int) []reflect.Value {
 			}
 			add(EmbedPtrOmit{X: m, InnerOmit: in}, EmbedPtrOmit{Y: "y", InnerOmit: in, Z: &one})
 		}
+		return out
+	case T[RecArr]():
+		inner := RecArr{nil}
+		add(RecArr{&inner}, RecArr{nil}, RecArr{&RecArr{&inner}})
+		return out
+	case T[LazyFn]():
+		add(LazyFn{func() string { return "hello" }}, LazyFn{})
+		return out
+	case T[ChanBox]():
+		add(ChanBox{make(chan int, 3)}, ChanBox{})
 		return out
 	case T[RecPM]():
 		// self-referential: hand-written values
@@ -268,10 +278,23 @@ func Domain(t reflect.Type, depth int) []reflect.Value {
 		ed := Domain(t.Elem(), depth+1)
 		mk := func(n, off int) reflect.Value {
 			m := reflect.MakeMap(t)
+			texts := map[string]bool{}
 			for i := 0; i < n && i < len(kd); i++ {
 				k := kd[i]
 				if k.Kind() == reflect.Float64 && k.Float() != k.Float() {
 					continue
+				}
+				if k.Kind() == reflect.Ptr {
+					// distinct pointers to equal values would be written under the same key text, in an
+					// order that neither encoder defines
+					txt := "<nil>"
+					if !k.IsNil() {
+						txt = fmt.Sprint(k.Elem().Interface())
+					}
+					if texts[txt] {
+						continue
+					}
+					texts[txt] = true
 				}
 				m.SetMapIndex(k, ed[(i+off)%len(ed)])
 			}
@@ -569,6 +592,16 @@ func deepEq(a, b reflect.Value, path string, depth int) (bool, string) {
 		it := a.MapRange()
 		for it.Next() {
 			bv := b.MapIndex(it.Key())
+			if !bv.IsValid() && it.Key().Kind() == reflect.Ptr {
+				// pointer keys of two independent targets: match by what they point to
+				jt := b.MapRange()
+				for jt.Next() {
+					if ok, _ := deepEq(it.Key(), jt.Key(), path, depth+1); ok {
+						bv = jt.Value()
+						break
+					}
+				}
+			}
 			if !bv.IsValid() {
 				return false, fmt.Sprintf("%s: key %v missing", path, it.Key())
 			}
